@@ -416,6 +416,8 @@ theorem bind_forward_shape {s : ArgSpec} {env : Env} (wf : WF s) (h : EnvShape s
 /-- nothing called `func` among the forwarded keywords -/
 theorem no_callerClash {s : ArgSpec} {ca : CallArgs} {env : Env} (h : bind s ca = .ok env)
     (hn : NoCallerNameClash s ca) : callerClash (forward s env) = false := by
+  rcases hn with hpo | hn
+  · simp [callerClash, hpo]
   have hkw : env.kw = leftover s ca.kw := by
     unfold Model.Wrappers.bind at h
     simp only at h
